@@ -536,6 +536,10 @@ func regC18(add addFn, p pFn) {
 			}
 		}
 	}
+	for _, et := range []int{17, 18, 19, 20, 16, 23} {
+		add(&Instance{Property: "C18", Name: "acceptor-round-trip-e" + itoa(et), Entry: "spnego.VH_C18_AcceptorRoundTrip", Params: p("etype", et, "kinds", 8), Stubs: append(append([]string{}, stubs...), "nfolduf", "des3rtkuf"), Logic: "QF_UFBV", Replay: "stubbed", TimeoutS: 1500, Tier: map[bool]string{true: "", false: "thorough"}[et == 18],
+			Reach: []string{"accepted"}, Bound: "one challenge and the authenticated retry; service ticket of etype " + itoa(et) + " issued by messages.NewTicket under a symbolic service key; the token is given to the library's acceptor (real service.VerifyAPREQ) twice"})
+	}
 	// a body that can be re-created (GetBody) and 307 redirects, which make net/http resend the body itself
 	add(&Instance{Property: "C18", Name: "do-POST-getbody-307-len2", Entry: "spnego.VH_C18_Do", Params: p("len", 2, "method", 2, "body", 2, "spn", 0, "early", 0, "etype", 18, "keylen", 32, "kinds", 9, "getbody", 1),
 		Stubs: stubs, Replay: "stubbed", TimeoutS: 1500, Reach: []string{"returned", "body-read", "challenged"},
